@@ -133,7 +133,17 @@ def make_data(rng, n, cont, labels="auto"):
     if labels == "auto" and rng.random() < 0.3:
         # mixed dtypes among the features: an integer column next to a float one (values, not dtypes, are what must be exchanged)
         df["z"] = rng.integers(-5, 6, size=n).astype("int64")
-    return df, cls, "label", ("x", "z")
+    names = ["x", "z", "label"]
+    if labels == "auto" and rng.random() < 0.3:
+        # columns in another physical order (the label column need not be the last one)
+        df = df[[names[int(j)] for j in rng.permutation(3)]]
+    if labels == "auto" and rng.random() < 0.3:
+        # integer column labels that are not the positions (a frame built from an array and re-ordered / sub-selected)
+        lab_ = [int(v) for v in (rng.permutation(3) if rng.random() < 0.6 else rng.choice(np.arange(3, 40), size=3, replace=False))]
+        ren = dict(zip(names, lab_))
+        df = df.rename(columns=ren)
+        names = lab_
+    return df, cls, names[2], (names[0], names[1])
 
 
 def cells(obj):
@@ -201,14 +211,19 @@ def check_one(name, cont, data, cls, tcol, fcols, lo, hi, rng, ctx, case, inj=No
     e0 = _frame_post.evals
     A = cells(data)
     ti = col_index(data, tcol)
+    p0, p1 = col_index(data, fcols[0]), col_index(data, fcols[1])
+    if isinstance(data, pd.DataFrame):
+        base["columns"] = [c if isinstance(c, str) else int(c) for c in data.columns]
+        if any(not isinstance(c, str) and int(c) != j for j, c in enumerate(data.columns)):
+            ctx.count("calls_on_integer_labels_other_than_positions")
     if name == "FeatureSwapInjector":
         out = call(inj, name, ctx, base, data, lo, hi, fcols[0], fcols[1])
-        if out is None or not frame_cells(data, out, lo, hi, {0, 1}, ctx, sig, base):
+        if out is None or not frame_cells(data, out, lo, hi, {p0, p1}, ctx, sig, base):
             return False
         B = cells(out)
         for i in range(lo, hi):
-            if not (eq(B[i, 0], A[i, 1]) and eq(B[i, 1], A[i, 0])):
-                ctx.violation(sig + "/effect", "row %d of the window: columns not exchanged (%r, %r) -> (%r, %r)" % (i, A[i, 0], A[i, 1], B[i, 0], B[i, 1]), **base)
+            if not (eq(B[i, p0], A[i, p1]) and eq(B[i, p1], A[i, p0])):
+                ctx.violation(sig + "/effect", "row %d of the window: columns not exchanged (%r, %r) -> (%r, %r)" % (i, A[i, p0], A[i, p1], B[i, p0], B[i, p1]), **base)
                 return False
         back = call(mon(name) if fresh else inj, name, ctx, base, out, lo, hi, fcols[0], fcols[1])
         if back is None:
@@ -218,18 +233,26 @@ def check_one(name, cont, data, cls, tcol, fcols, lo, hi, rng, ctx, case, inj=No
             return False
     elif name == "FeatureShiftInjector":
         sf = float(rng.choice([0.5, -1.0, 2.0]))
-        alpha = float(rng.choice([0.001, 0.1]))
-        base.update(shift_factor=sf, alpha=alpha)
-        out = call(inj, name, ctx, base, data, lo, hi, fcols[0], sf, alpha)
-        if out is None or not frame_cells(data, out, lo, hi, {0}, ctx, sig, base):
+        # alpha: omitted (documented default 0.001), zero (a pure mean shift), or some other value; given by position or keyword
+        amode = str(rng.choice(["default", "zero", "int_zero", "value", "value"]))
+        alpha = {"default": 0.001, "zero": 0.0, "int_zero": 0}.get(amode, float(rng.choice([0.001, 0.1, -0.25])))
+        base.update(shift_factor=sf, alpha=alpha, alpha_given=amode)
+        ctx.count("shift_alpha:" + amode)
+        if amode == "default":
+            out = call(inj, name, ctx, base, data, lo, hi, fcols[0], sf)
+        elif rng.random() < 0.5:
+            out = call(inj, name, ctx, base, data, lo, hi, fcols[0], sf, alpha=alpha)
+        else:
+            out = call(inj, name, ctx, base, data, lo, hi, fcols[0], sf, alpha)
+        if out is None or not frame_cells(data, out, lo, hi, {p0}, ctx, sig, base):
             return False
         B = cells(out)
         if hi > lo:
-            mean = float(np.mean([float(A[i, 0]) for i in range(lo, hi)]))
+            mean = float(np.mean([float(A[i, p0]) for i in range(lo, hi)]))
             for i in range(lo, hi):
-                if not close(B[i, 0], float(A[i, 0]) + sf * (alpha + mean)):
+                if not close(B[i, p0], float(A[i, p0]) + sf * (alpha + mean)):
                     ctx.violation(sig + "/effect", "row %d: %r -> %r, expected + shift_factor x (alpha + window mean) = %r" % (
-                        i, A[i, 0], B[i, 0], float(A[i, 0]) + sf * (alpha + mean)), **base)
+                        i, A[i, p0], B[i, p0], float(A[i, p0]) + sf * (alpha + mean)), **base)
                     return False
     elif name == "LabelSwapInjector":
         c1, c2 = [cls[int(i)] for i in rng.choice(3, size=2, replace=False)]
@@ -354,11 +377,11 @@ def check_one(name, cont, data, cls, tcol, fcols, lo, hi, rng, ctx, case, inj=No
         base.update(x0=x0, random_state=rs)
         with rngtap.Tap() as tap:
             out = call(inj, name, ctx, base, data, lo, hi, fcols[0], x0, random_state=rs)
-        if out is None or not frame_cells(data, out, lo, hi, {0}, ctx, sig, base):
+        if out is None or not frame_cells(data, out, lo, hi, {p0}, ctx, sig, base):
             return False
         B = cells(out)
         steps = hi - lo
-        d = [float(B[i, 0]) - float(A[i, 0]) for i in range(lo, hi)]
+        d = [float(B[i, p0]) - float(A[i, p0]) for i in range(lo, hi)]
         if steps:
             ys = [int(e[3]) for e in tap.since(0, "choice")]
             if len(ys) != steps - 1 or tap.seed_calls[-1:] != [((rs,), {})]:
